@@ -445,6 +445,10 @@ func spaces(r *ev.Run) []space {
 			{name: "2obj-filter-spellings-rooted", alpha: spell, n: 2, rooted: true, cfgs: join(noAES256, noSeekPairs, rc4TgtPairs), verify: 1},
 			{name: "1obj-direct-values-depth3", alpha: lean, n: 1, depth: 3, dangOp: true, directOp: true, cfgs: [][2]string{{"none", "1.4"}, {"aes-128", "1.7-aes128"}}, verify: 1},
 			{name: "2obj-direct-values-depth2", alpha: lean, n: 2, depth: 2, directOp: true, cfgs: plainPair, verify: 1},
+			{name: "1obj-filter-chains2-depth3", alpha: chains2, n: 1, depth: 3, dangOp: true, cfgs: join(allPairs, noSeekPairs, rc4TgtPairs), verify: 1},
+			{name: "1obj-filter-chains3-depth2", alpha: chains3, n: 1, depth: 2, cfgs: join(noAES256, noSeekPairs, rc4TgtPairs2), verify: 1},
+			{name: "2obj-filter-chains2-linked-depth2", alpha: chains2Linked, n: 2, depth: 2, cfgs: [][2]string{{"none", "1.4"}, {"aes-128", "1.7-aes128"}}, verify: 1},
+			{name: "2obj-filter-chains2-linked+K-rooted", alpha: chains2LinkedK, n: 2, rooted: true, cfgs: plainPair, verify: 8},
 			{name: "1obj-parm-refs-depth3", alpha: parmRefs, n: 1, depth: 3, dangOp: true, cfgs: join(allPairs, noSeekPairs, rc4TgtPairs), verify: 1},
 			{name: "2obj-parm-refs-depth3", alpha: parmRefs, n: 2, depth: 3, dangOp: true, cfgs: plainPair, verify: 1},
 			{name: "2obj-parm-refs-depth2-enc", alpha: parmRefs, n: 2, depth: 2, cfgs: join(encPairs, noSeekPairs[:1], rc4TgtPairs2[1:]), verify: 1},
@@ -466,6 +470,10 @@ func spaces(r *ev.Run) []space {
 		{name: "1obj-filter-spellings-depth2", alpha: spell, n: 1, depth: 2, dangOp: true, cfgs: join(noAES256, noSeekPairs, rc4TgtPairs), verify: 1},
 		{name: "1obj-filter-spellings-aes256", alpha: spell, n: 1, depth: 1, cfgs: aes256Pairs, verify: 1},
 		{name: "1obj-direct-values-depth2", alpha: lean, n: 1, depth: 2, dangOp: true, directOp: true, cfgs: [][2]string{{"none", "1.4"}, {"aes-128", "1.7-aes128"}}, verify: 1},
+		{name: "1obj-filter-chains2-depth2", alpha: chains2, n: 1, depth: 2, dangOp: true, cfgs: join(noAES256, noSeekPairs, rc4TgtPairs), verify: 1},
+		{name: "1obj-filter-chains2-aes256", alpha: chains2, n: 1, depth: 1, cfgs: aes256Pairs, verify: 1},
+		{name: "1obj-filter-chains3-rooted", alpha: chains3, n: 1, rooted: true, cfgs: [][2]string{{"none", "1.4"}, {"aes-128", "1.7-aes128"}, {"rc4-128", "2.0"}, {"none", tgtNoSeek}}, verify: 1},
+		{name: "2obj-filter-chains2-linked-rooted", alpha: chains2Linked, n: 2, rooted: true, cfgs: plainPair, verify: 1},
 		{name: "1obj-parm-refs-depth2", alpha: parmRefs, n: 1, depth: 2, dangOp: true, cfgs: join(noAES256, noSeekPairs, rc4TgtPairs, aes256Pairs[:1]), verify: 1},
 		{name: "2obj-parm-refs-depth2", alpha: parmRefs, n: 2, depth: 2, cfgs: plainPair, verify: 1},
 		{name: "2obj-parm-refs-rooted-enc", alpha: parmRefs, n: 2, rooted: true, cfgs: join(encPairs, noSeekPairs[:1], rc4TgtPairs2[1:]), verify: 1},
@@ -525,6 +533,7 @@ func Run(tier string) int {
 		"source fixtures are written with pdf.Writer (streams with indirect /Length, /Filter, /DecodeParms through a thin export wrapper that emits the dictionary verbatim) and checked to read back as described",
 		"identity of a source object is the object a reference finally leads to; a reference that leads to no object (dangling, free, or the number of a live object with a wrong generation) is a null value; reference loops and chains that pass a redirected object are outside the statement (every outcome accepted)",
 		"the oracle was validated at start-up against an independent reference copier whose targets are described as data (no Writer, no Reader): accepted on every self-test case, and each planted flaw reported under its fingerprint (selftest_* entries); the same correct copies are also sent through the library's Writer and Reader, and a failure of that second part, of a source fixture or of a known witness counts as an infrastructure failure only if the exploration finds no violation (otherwise it is listed under machinery_failures_attributable_to_the_library)",
+		"the fixtures of the filter-chain family are encoded by the harness (compress/zlib, the framework's reference LZW encoder, own ASCIIHex and PNG-Up encoders); the encoding is checked at start-up against decoders that are not the library's (compress/zlib, x/image/tiff/lzw, encoding/hex) and every fixture is checked to decode to its plaintext through the library's Reader before it is used",
 		"/Filter and /DecodeParms of a stream may be respelled by the copier (inlined, name <-> one-element array): their form is not compared, but a reference inside a filter parameter dictionary is a reference of the graph and is judged like every other (translated to the copy of the same source object, shared with every other path); the /JBIG2Decode streams of the parm-reference family hold opaque data that nothing decodes, in the source either: for them the stored bytes after decryption are compared as long as the target names the same filter chain",
 		"non-termination is detected by bounding the number of reads from the source (see source_read_budget and max_source_reads_in_one_execution) and by a 20 s wall-clock watchdog whose suspects are re-run twice in a child process")
 
@@ -572,6 +581,14 @@ func Run(tier string) int {
 	r.Dim("direct_values_1_object", len(directValues(1)))
 	r.Dim("parm_reference_family", "stream variants "+fmt.Sprint(stmParmBase)+"..: a stream whose filter parameter dictionary holds an indirect reference to a node of the source graph: filter in {FlateDecode with <</Predictor 12 /Columns 4 /G ref>> (decodes; /G is unknown to the filter), JBIG2Decode with <</JBIG2Globals ref>> (opaque data, stored bytes compared)} x placement of the dictionary in {/Filter /X + dictionary; [/X] + [dictionary]; /X + reference to the dictionary; [/X] + [reference]; [/X] + reference to [dictionary]; [/X] + reference to [reference]; [/ASCIIHexDecode /X] + [null dictionary]} x reference to every object of the graph (the stream itself included: a stream, a dictionary or array that a second path reaches, a link of a reference chain) or a dangling reference x /K entry absent or a reference to every object of the graph; the oracle finds the parameter dictionary by the meaning of /Filter and /DecodeParms (any spelling, direct or behind references) and judges the reference inside like every other reference of the graph")
 	r.Dim("parm_reference_variants", len(parmSpecs))
+	r.Dim("filter_chain_family", "streams S{chain:parms}: every filter chain of length 2 and 3 over {FlateDecode, ASCIIHexDecode, LZWDecode} (/Filter an array of names) x /DecodeParms absent or an array with one entry per filter, every position independently one of {null, the predictor dictionary <</Predictor 12 /Columns 1>>, the empty dictionary, a reference to an object holding the predictor dictionary, a reference to an object holding the empty dictionary, a reference to an object holding null}; the data is encoded accordingly (PNG Up predictor at the stages whose entry is or leads to the predictor dictionary and whose filter has a predictor), so every stream decodes in the source and a parameter entry that moves, vanishes or appears changes the decoded bytes; oracle as for every stream: the decoded bytes in the reopened target")
+	r.Dim("filter_chain_filters", []string{"FlateDecode", "ASCIIHexDecode", "LZWDecode"})
+	entryNames := map[string]string{}
+	for k, v := range chainEntryNames {
+		entryNames[string(rune(k))] = v
+	}
+	r.Dim("filter_chain_parameter_entries", entryNames)
+	r.Dim("filter_chain_variants", map[string]int{"2 filters": len(chainVariantsOfLen(2)), "3 filters": len(chainVariantsOfLen(3))})
 	for _, sp := range spaces(r) {
 		if r.Expired() || rn.hung.Load() {
 			break
